@@ -6,6 +6,7 @@ import WebpVerif.Lemmas.Vp8Mode
 import WebpVerif.Lemmas.Vp8Border
 import WebpVerif.Lemmas.Vp8Pred
 import WebpVerif.Lemmas.Vp8Coef
+import WebpVerif.Lemmas.Vp8Tok
 
 /-!
 # C02 — VP8 key-frame reconstruction is bit-exact
@@ -384,5 +385,23 @@ theorem coefficients_are_bounded (d : Arith.Dec) (probs : Nat → Nat → List N
     (h : Vp8Coef.readCoefficients d probs plane complexity dcq acq = some (d', block, r)) :
     ∀ z : Nat, (block[z]?.getD 0).natAbs ≤ 2114 * Q :=
   Vp8CoefProof.coefficients_bounded d probs plane complexity dcq acq Q hd ha d' block r h
+
+
+/-- **Token decoding = the reference.**  One position of the token loop of `read_coefficients`
+    (`Vp8Coef.stepAt`: the walk over `DCT_TOKEN_TREE` entered at the root or - after a zero token -
+    at node 1, the literal tokens, the six categories with their extra bits from `PROB_DCT_CAT` and
+    bases from `DCT_CAT_BASE`) decodes, for EVERY well-formed decoder state, every probability
+    table, position, context and quantiser pair, exactly the token libwebp's `GetCoeffs` /
+    `GetLargeValue` decode with explicit bit tests on `p[0..10]`, the constants 159 / 165 / 145 and
+    the tables `kCat3..kCat6` (`Vp8Tokens.token`, transcribed from `src/dec/vp8_dec.c`), using the
+    same public bit reads - and then does with it what `applyTok` says (stop; note the zero; or
+    read the sign, dequantise and store at the zigzag position, next context min(v, 2)) -/
+theorem token_decoding_is_reference (probs : Nat → Nat → List Nat)
+    (hprobs : ∀ band ctx, (probs band ctx).length = 11 ∧ ∀ p ∈ probs band ctx, p < 256)
+    (dcq acq : Int) (i : Nat) (s : Vp8Coef.St) (hwf : Arith.WF s.d) :
+    Vp8Coef.stepAt probs dcq acq i s =
+      some (Vp8TokProof.applyTok dcq acq i s
+        (Vp8Tokens.token Vp8TokProof.pub (fun k => (probs (Gen.Tables.COEFF_BANDS.getD i 0) s.complexity).getD k 0) s.skip s.d)) :=
+  Vp8TokProof.stepAt_is_reference probs hprobs dcq acq i s hwf
 
 end C02
